@@ -25,7 +25,7 @@ func vpBuildState(n, depth, maxc int, untracked bool) ([]vpTracked, []vpFile) {
 		}
 		c := zzvp.Bytes("tc"+id, 1, "")
 		zzvp.WriteFile(w+"/"+p, c)
-		zzvp.Assume(zzvp.Run("add", p).Exit == 0)
+		vpOK(zzvp.Run("add", p))
 		ts = append(ts, vpTracked{path: p, staged: c, current: c, exists: true})
 	}
 	for i := range ts {
@@ -183,7 +183,7 @@ func VP_C04_ReAdd() {
 	w := zzvp.Root()
 	files := vpWorkFiles(1+zzvp.Choose(zzvp.Param("files", 2)), zzvp.Param("depth", 2), zzvp.Param("complen", 2), 1)
 	for _, f := range files {
-		zzvp.Assume(zzvp.Run("add", f.path).Exit == 0)
+		vpOK(zzvp.Run("add", f.path))
 	}
 	s0 := zzvp.Snapshot(w)
 	var r zzvp.Result
